@@ -1,23 +1,154 @@
-"""setup-time parsing of every specification module, and the machinery's own self-tests."""
+"""setup-time parsing of every specification module, and the machinery's own self-tests:
+   * F64 override against exact integer arithmetic; literature constants of IvpMethods (order conditions)
+   * defect switches of the design models must produce TLC counterexamples
+   * binding demonstrations: a clean recorded trace is accepted; the same trace with one field corrupted,
+     one event dropped or two events swapped is rejected at that event
+   * vacuity: every explaining action of the C03 trace specification is taken"""
+import copy
 import glob
+import json
 import os
+import random
+
 import vlib
 
 
 def sany_all():
     bad = 0
     cp = ":".join([vlib.CLASSES, vlib.TLA_JAR, vlib.DEPS_JAR])
-    for f in sorted(glob.glob(os.path.join(vlib.SPEC, "*.tla"))):
+    mods = sorted(glob.glob(os.path.join(vlib.SPEC, "*.tla")))
+    for f in mods:
         p = vlib.sh(["java", "-cp", cp, "tla2sany.SANY", os.path.basename(f)], cwd=vlib.SPEC, check=False, timeout=120)
         if p.returncode != 0 or "Semantic errors" in p.stdout or "*** Errors" in p.stdout or "Fatal" in p.stdout:
             print("SANY FAILED: %s\n%s" % (f, p.stdout[-1500:]))
             bad += 1
-    print("setup: %d modules parsed, %d failed" % (len(glob.glob(os.path.join(vlib.SPEC, "*.tla"))), bad))
+    print("setup: %d modules parsed, %d failed" % (len(mods), bad))
     return 2 if bad else 0
 
 
+class T:
+    def __init__(self):
+        self.fail = 0
+
+    def check(self, name, ok, extra=""):
+        print("selftest %-62s %s %s" % (name, "ok" if ok else "FAILED", extra), flush=True)
+        if not ok:
+            self.fail += 1
+
+
+def expect_counterexample(t, name, module, cfg_text, invariant_hint=None):
+    path = os.path.join(vlib.SPEC, "_selftest.cfg")
+    open(path, "w").write(cfg_text)
+    try:
+        r = vlib.tlc(module, cfg="_selftest.cfg", workers=4, timeout=600, deque=False, check=False)
+    finally:
+        os.remove(path)
+    viol = [l for l in r.out.splitlines() if "is violated" in l]
+    t.check(name, bool(viol), (viol[0].strip() if viol else "no counterexample"))
+
+
+def validate_events(module, events, env=None, cfg="Val.cfg"):
+    path = os.path.join(vlib.VERIF, "work", "selftest-obs.ndjson")
+    os.makedirs(os.path.dirname(path), exist_ok=True)
+    vlib.write_ndjson(path, events)
+    e = {"VH_OBS": path}
+    e.update(env or {})
+    r = vlib.tlc(module, cfg=cfg, env=e, timeout=600)
+    ok = bool(r.tagged("CHECKED")) and r.tagged("CHECKED")[0][1] == len(events)
+    return r.tagged("VIOL"), ok
+
+
+def bump(pair, k=1):
+    """next representable double (k ulps up) of a [hi, lo] pair"""
+    x = vlib.pair_to_float(pair)
+    import struct
+    bits = struct.unpack(">q", struct.pack(">d", x))[0]
+    bits += k if x >= 0 else -k
+    return vlib.float_to_pair(struct.unpack(">d", struct.pack(">q", bits))[0])
+
+
 def run():
+    import ivpcommon
+    import ivpgen
+    t = T()
     r = vlib.tlc("F64Test", cfg="Gen.cfg", timeout=120)
-    ok = any("F64Test ok" in l for l in r.out.splitlines())
-    print("selftest F64: %s" % ("ok" if ok else "FAILED"))
-    return 0 if ok else 2
+    t.check("F64 override agrees with exact integer arithmetic", any("F64Test ok" in l for l in r.out.splitlines()))
+    r = vlib.tlc("MC_IvpMethods", cfg="Gen.cfg", timeout=300)
+    t.check("IvpMethods constants: order conditions, flows vs rhs", any("MC_IvpMethods ok" in l for l in r.out.splitlines()))
+
+    # ---- defect switches must give counterexamples ------------------------------------------------
+    base = open(os.path.join(vlib.SPEC, "MC_IvpProtocol.cfg")).read()
+    expect_counterexample(t, "IvpProtocol{ClipBeforeHandOver,ShortenToEnd} violates the contract", "MC_IvpProtocol",
+                          base.replace("Defects = {}", 'Defects = {"ClipBeforeHandOver", "ShortenToEnd"}').replace("PROPERTY Terminates", ""))
+    sbase = open(os.path.join(vlib.SPEC, "MC_SimpsonStack.cfg")).read()
+    expect_counterexample(t, "SimpsonStack{StaleLeftEstimate} violates OwnEstimate", "SimpsonStack",
+                          sbase.replace("StaleLeftEstimate = FALSE", "StaleLeftEstimate = TRUE"))
+
+    # ---- binding: IVP contract trace -----------------------------------------------------------------
+    ctx = vlib.Ctx("SELFTEST", "quick", 1, "other")
+    rng = random.Random(7)
+    cases = []
+    for solver in ("adams5", "rk45", "bdf2", "euler"):
+        rhs, y0, _ = ivpgen.system(rng, 2, 1.0, 0.0, kinds=["lin", "rot"])
+        cases.append(ivpgen.base_case(len(cases) + 1, solver, 2, 0.0, 1.0, 1e-6 if solver != "euler" else 0.05, 0.05, 1e-5, rhs, y0))
+    events = ivpcommon.harness_runs(ctx, cases, tag="st", nproc=1)
+    viols, ok = validate_events("Val_Ivp", events)
+    t.check("clean IVP trace accepted by Val_Ivp", ok and not viols, "%d events" % len(events))
+    items = [k for k, e in enumerate(events) if e["ev"] == "item" and e["c"] == 1]
+    ev2 = copy.deepcopy(events)
+    ev2[items[-1]]["t"] = bump(ev2[items[-1]]["t"], -1)
+    viols, ok = validate_events("Val_Ivp", ev2)
+    t.check("last item time changed by one ulp -> rejected", any("ends_exactly_at_end_time" in v[2] for v in viols))
+    ev2 = copy.deepcopy(events)
+    ev2[items[3]], ev2[items[4]] = ev2[items[4]], ev2[items[3]]
+    viols, ok = validate_events("Val_Ivp", ev2)
+    t.check("two items swapped -> rejected at that event", any("times_strictly_increasing" in v[2] for v in viols))
+    ev2 = [e for k, e in enumerate(events) if k != items[5]]
+    ev2 = [e for k, e in enumerate(ev2) if not (e["ev"] == "item" and e["c"] == 1 and k in range(items[5], items[5] + 3))]
+    viols, ok = validate_events("Val_Ivp", ev2)
+    t.check("items dropped (gap > max step) -> rejected", any("gap_le_max_step" in v[2] for v in viols))
+    # ---- binding: method trace ------------------------------------------------------------------------
+    cases = []
+    for solver in ("adams5", "rk45", "bdf6", "adams3", "rk23", "bdf2", "euler"):
+        rhs, y0 = ivpgen.generic_system(rng, 2)
+        cases.append(ivpgen.base_case(len(cases) + 1, solver, 2, 0.0, 0.8, 1e-7 if solver != "euler" else 0.02, 0.1 if solver != "euler" else 0.02,
+                                      1e-6, rhs, y0, max_items=300))
+    events = [e for e in ivpcommon.harness_runs(ctx, cases, tag="st", nproc=1) if e["ev"] in ("reset", "item")]
+    path = os.path.join(vlib.VERIF, "work", "selftest-obs.ndjson")
+    vlib.write_ndjson(path, events)
+    r = vlib.tlc("Val_IvpMethods", cfg="Val.cfg", env={"VH_OBS": path}, timeout=600)
+    acts = {}
+    for a in r.tagged("ACT"):
+        acts[a[1]] = acts.get(a[1], 0) + 1
+    t.check("clean method trace accepted by Val_IvpMethods", not r.tagged("VIOL"), "%d events" % len(events))
+    t.check("vacuity: Pc, Bdf and Rk4Start explanations all taken", all(acts.get(a, 0) > 0 for a in ("Pc", "Bdf", "Rk4Start")), str(acts))
+    k = [j for j, e in enumerate(events) if e["ev"] == "item" and e["c"] == 1][6]
+    ev2 = copy.deepcopy(events)
+    ev2[k]["y"][0][0] = vlib.float_to_pair(vlib.pair_to_float(ev2[k]["y"][0][0]) * (1 + 1e-7))
+    vlib.write_ndjson(path, ev2)
+    r = vlib.tlc("Val_IvpMethods", cfg="Val.cfg", env={"VH_OBS": path}, timeout=600)
+    t.check("one state component changed by 1e-7 -> point unexplained", any(v[1] in (k + 1, k + 2) for v in r.tagged("VIOL")))
+    # ---- binding: builder trace ------------------------------------------------------------------------
+    bc = [{"id": 1, "solver": "rk45", "static": True, "ctor": "new", "size": 2,
+           "calls": [{"call": "min", "v": 4}, {"call": "max", "v": 2}, {"call": "tol", "v": 0}, {"call": "solve", "v": 0}]}]
+    events = ivpcommon.harness_runs(ctx, bc, tag="st", task="ivp-builders", nproc=1)
+    viols, ok = validate_events("Val_IvpBuilder", events)
+    t.check("clean builder trace accepted by Val_IvpBuilder", ok and not viols)
+    ev2 = copy.deepcopy(events)
+    for e in ev2:
+        if e["ev"] == "bcall" and not e["ok"]:
+            e["kind"] = "TimeDeltaOOB"
+    viols, ok = validate_events("Val_IvpBuilder", ev2)
+    t.check("error variant altered -> rejected", any("rejected_with_its_dedicated_error" in v[2] for v in viols))
+    # ---- binding: table rows -------------------------------------------------------------------------
+    tab = os.path.join(vlib.VERIF, "work", "selftest-tables.ndjson")
+    vlib.vh("tables", tab)
+    rows = [r_ for r_ in vlib.read_ndjson(tab) if r_["table"] in ("legendre", "tanhsinh")][:14]
+    viols, ok = validate_events("Val_C10", rows, env={"VH_RELG": "2e-10", "VH_RELDE": "1e-13"})
+    t.check("clean table rows accepted by Val_C10", ok and not viols)
+    rows2 = copy.deepcopy(rows)
+    rows2[9]["pairs"][1][1] = vlib.float_to_pair(vlib.pair_to_float(rows2[9]["pairs"][1][1]) * (1 + 1e-8))
+    viols, ok = validate_events("Val_C10", rows2, env={"VH_RELG": "2e-10", "VH_RELDE": "1e-13"})
+    t.check("one weight changed by 1e-8 -> row rejected", any(v[1] == 10 for v in viols))
+    print("selftest: %d failures" % t.fail)
+    return 0 if t.fail == 0 else 2
